@@ -1,4 +1,4 @@
-import ScVerif.C10.BusReach
+import ScVerif.C10.BusMeasure
 /-!
 # C10 — property theorems, part 1: the event bus (`internal/minibus/bus.go`)
 
@@ -96,6 +96,53 @@ theorem C10_cancelled_stable (c : Config) (m : Move) (l : Nat) :
     simp only [Option.getD_some, Option.getD_none, Config.setL, Config.setS, upd_apply] <;>
     (repeat' split) <;> simp_all
 
+/-- `cancelled_stable` along a whole schedule -/
+theorem C10_cancelled_stable_run (c : Config) (sched : List Move) (l : Nat) :
+    (c.ls l).cancelled = true → ((run c sched).ls l).cancelled = true := by
+  induction sched generalizing c with
+  | nil => exact id
+  | cons m ms ih => intro h; exact ih (next c m) (C10_cancelled_stable c m l h)
+
+/-- Churn: a registered listener whose context is live is never dropped from `b.listeners`, whoever
+collects and whenever (every schedule; `Bus.collect` of any sender may run while other Sends are in
+flight).  So it is in the snapshot of every Send that starts later, and `C10_exactly_once` — which is
+about the sender's snapshot and holds while other senders collect — applies to it. -/
+theorem C10_live_listener_stays_registered (c : Config) (sched : List Move) (l : Nat) :
+    l ∈ c.bus → ((run c sched).ls l).cancelled = false → l ∈ (run c sched).bus := by
+  induction sched generalizing c with
+  | nil => intro h _; exact h
+  | cons m ms ih =>
+    intro hb hfin
+    have hnow : ((next c m).ls l).cancelled = false := by
+      cases hc : ((next c m).ls l).cancelled with
+      | false => rfl
+      | true => rw [show run c (m :: ms) = run (next c m) ms from rfl,
+                    C10_cancelled_stable_run (next c m) ms l hc] at hfin; cases hfin
+    have hc0 : (c.ls l).cancelled = false := by
+      cases hc : (c.ls l).cancelled with
+      | false => rfl
+      | true => rw [C10_cancelled_stable c m l hc] at hnow; cases hnow
+    refine ih (next c m) ?_ hfin
+    unfold next
+    cases m <;> simp only [step] <;> (repeat' split) <;>
+      simp only [Option.getD_some, Option.getD_none, Config.setL, Config.setS] <;>
+      first
+        | exact hb
+        | (simp only [List.mem_append]; exact Or.inl hb)
+        | (simp only [List.mem_filter]; exact ⟨hb, by simp [hc0]⟩)
+
+/-- non-vacuity / churn example: sender 1 collects the cancelled listener 1 while sender 0's Send is in
+flight; listener 0 (live) stays registered, receives sender 0's event once, and sender 0 — working on
+its own snapshot, which still names listener 1 — completes. -/
+example :
+    let c := run (init fun _ => 1)
+      [.lSpawn 0, .lRegister 0, .lSpawn 1, .lRegister 1, .sSnapshot 0, .sSnapshot 1, .cancel 1,
+       .sAcquire 1, .recvReq 0, .sDeliver 1, .sRelease 1, .sAcquire 1, .sListenCancelled 1, .sRelease 1,
+       .sFinish 1, .sCollect 1,
+       .sAcquire 0, .recvReq 0, .sDeliver 0, .sRelease 0, .sAcquire 0, .sListenCancelled 0, .sRelease 0]
+    c.bus = [0] ∧ (c.ss 0).snap = [0, 1] ∧ (c.ss 0).pc = .loop ∧ (c.ss 0).rest = [] ∧
+      (c.ls 0).recvd = [⟨1, 1⟩, ⟨0, 1⟩] := by decide
+
 /-- Per-sender order, on every listener, under every schedule: of two events received on one channel
 from the same sender, the earlier received one comes from the earlier `Send` call (no duplicate, no
 reordering). -/
@@ -132,10 +179,6 @@ theorem C10_cancel_unblocks_writer (c : Config) (t l : Nat) (tl : List Nat)
     ∃ c2, step (next c (.cancel l)) (.sListenCancelled t) = some c2 ∧
       ∃ c3, step c2 (.sRelease t) = some c3 ∧ (c3.ss t).pc = .loop ∧ (c3.ss t).rest = tl := by
   simp [next, step, Config.setL, Config.setS, hrest, hpc]
-
-/-- remaining steps of the goroutine `go func(){ <-ctx.Done(); l.stop() }` -/
-def wsteps : WPc → Nat
-  | .none => 7 | .await => 6 | .enter => 5 | .wait => 4 | .locked => 3 | .closing => 2 | .unlock => 1 | .done => 0
 
 /-- is `m` a step of listener `l`'s watcher goroutine? -/
 def watcherMove (l : Nat) (m : Move) : Bool :=
@@ -211,6 +254,49 @@ theorem C10_watcher_terminates (c c' : Config) (m : Move) (l : Nat) (hs : step c
       | (simp only [Option.some.injEq] at hs; subst hs
          simp only [watcherMove, Config.setL, Config.setS, upd_apply] at *
          (repeat' split) <;> simp_all [wsteps] <;> grind)
+
+/-- the termination measure of `l`'s shutdown at bus level, ordered lexicographically: the watcher's
+remaining steps, then (while it waits for the write lock) the steps its readers still need -/
+def busMu (c : Config) (l : Nat) : Nat × Nat :=
+  (wsteps (c.ls l).wpc, if (c.ls l).wpc = .wait then rsum c l else 0)
+
+/-- Termination at bus level is a theorem, not only progress: under EVERY step of anybody (other than
+the `Listen` call that creates the watcher) the measure `busMu · l` does not increase in the
+lexicographic order; every step of `l`'s watcher strictly decreases its first component; and while the
+watcher waits, every step of a sender holding `l`'s read lock (`select` outcome or `RUnlock`) strictly
+decreases the second.  With `C10_cancel_releases` (one of those steps is always enabled after the cancel)
+and well-foundedness of the order, every fair schedule brings the watcher to `done`, i.e. the channel
+is closed (`C10_done_closed`). -/
+theorem C10_cancel_terminates_bus (c c' : Config) (hc : Reachable c) (m : Move) (l : Nat)
+    (hs : step c m = some c') (hm : m ≠ .lSpawn l) :
+    ((busMu c' l).1 < (busMu c l).1 ∨ ((busMu c' l).1 = (busMu c l).1 ∧ (busMu c' l).2 ≤ (busMu c l).2)) ∧
+    (watcherMove l m = true → (busMu c' l).1 < (busMu c l).1) ∧
+    (∀ t, (c.ls l).wpc = .wait → t ∈ (c.ls l).readers → readerMove t m = true →
+        (busMu c' l).1 = (busMu c l).1 ∧ (busMu c' l).2 < (busMu c l).2) := by
+  have hW := C10_watcher_terminates c c' m l hs hm
+  have hI := hc.inv.lock
+  cases hwm : watcherMove l m with
+  | true =>
+    have := hW.1 hwm
+    refine ⟨Or.inl this, fun _ => this, ?_⟩
+    intro t _ _ hr
+    exfalso
+    cases m <;> simp [watcherMove, readerMove] at hwm hr
+  | false =>
+    have hpc := hW.2 hwm
+    refine ⟨Or.inr ⟨by simp [busMu, hpc], ?_⟩, fun h => by simp at h, ?_⟩
+    · simp only [busMu, hpc]
+      split
+      · rename_i hw; exact rsum_step_le hI hw hs
+      · exact Nat.le_refl _
+    · intro t hw ht hr
+      refine ⟨by simp [busMu, hpc], ?_⟩
+      simp only [busMu, hpc, hw, if_true]
+      exact rsum_step_lt hI ht hr hs
+
+/-- the lexicographic order on `Nat × Nat` used above is well founded: no infinite descent -/
+theorem C10_busMu_order_wf : WellFounded (Prod.Lex (· < ·) (· < ·) : Nat × Nat → Nat × Nat → Prop) :=
+  (Prod.lex ⟨_, Nat.lt_wfRel.wf⟩ ⟨_, Nat.lt_wfRel.wf⟩).wf
 
 /-- …and when it has returned, the channel is closed and nil, under every schedule. -/
 theorem C10_done_closed (c : Config) (hc : Reachable c) (l : Nat) (hd : (c.ls l).wpc = .done) :
